@@ -1283,7 +1283,12 @@ pub fn audit_memory(final_check: bool) {
     for (o, ob) in m.objs.iter().enumerate() {
         let o = o as Oid;
         let Some(bi) = arena::block_of(ob.addr) else { continue };
-        let b = arena::blocks()[bi];
+        let mut b = arena::blocks()[bi];
+        // recycling arena: the allocation has been handed out again to a later
+        // object, so it was released
+        if oid_of_addr(ob.addr) != Some(o) {
+            b.freed = true;
+        }
         let should_be_free = gone(o) && m.weak(o) == 0;
         if b.freed && !should_be_free {
             let msg = format!(
@@ -1449,6 +1454,9 @@ pub fn run_script(s: &Script, cfg: Cfg) -> ! {
 /// Interpret the whole script; returns normally when no view failed.
 pub fn run_script_body(s: &Script, cfg: Cfg) {
     arena::seed_layout(s.arena_seed.unwrap_or(s.layout_seed), true);
+    // a quarter of the cases: object allocations are recycled like a real allocator does
+    arena::st().recycle = (s.layout_seed >> 36) & 3 == 0;
+    arena::st().n_recycled = 0;
     let digest = cfg.digest;
     let leaks = cfg.audit_leaks;
     install_world(cfg);
@@ -1559,6 +1567,9 @@ pub fn run_script_body(s: &Script, cfg: Cfg) {
 pub fn finish() -> ! {
     let wd = w();
     let sh = shared();
+    if arena::st().n_reused > 0 {
+        label(lab::ADDRESS_REUSED);
+    }
     sh.labels = wd.labels.get();
     sh.counters[ctr::ARENA_BLOCKS] = arena::st().nblocks as u64;
     sh.counters[ctr::TRACE_CALLS] = cactusref::__verif::counters()[0] as u64;
